@@ -35,6 +35,8 @@ pub(super) fn generate_enum_definitions<'a, 'schema: 'a>(
             .map(|v| {
                 let safe_name = super::shared::keyword_replace(v.as_str());
                 let name = normalization.enum_variant(safe_name.as_ref());
+                // Normalization can turn the escaped name back into a keyword (`self_` -> `Self`).
+                let name = super::shared::keyword_replace(name);
                 let name = Ident::new(&name, Span::call_site());
 
                 quote!(#name)
@@ -49,6 +51,7 @@ pub(super) fn generate_enum_definitions<'a, 'schema: 'a>(
             .map(|v| {
                 let safe_name = super::shared::keyword_replace(v);
                 let name = normalization.enum_variant(safe_name.as_ref());
+                let name = super::shared::keyword_replace(name);
                 let v = Ident::new(&name, Span::call_site());
 
                 quote!(#name_ident::#v)
